@@ -399,7 +399,15 @@ def main():
             undecided.append((h, r.status + (': ' + r.raw.strip().split('\n')[-1][:200] if r.raw.strip() else '')))
         obligations.append(ob)
 
+    kani_verdict = {o['obligation']: o['verdict'] for o in obligations}
     for vr in verus_results:
+        twin = vr['obligation'].get('complete_kani_twin')
+        if vr['verdict'] == 'undecided' and twin and kani_verdict.get(twin) == 'discharged':
+            # the same function is decided by a COMPLETE (full-domain) Kani obligation of this run: an
+            # undecided Verus twin (e.g. the function left Verus' subset) does not leave the property undecided
+            vr['verdict'] = 'redundant'
+            vr['obligation']['verdict'] = 'not-needed (decided by complete Kani twin %s): %s' % (twin, vr.get('reason', ''))[:300]
+            vr['obligation']['kind'] = 'skipped'
         obligations.append(vr['obligation'])
         if vr['verdict'] == 'refuted':
             violations.append((vr, vr.get('messages', [])))
@@ -474,7 +482,7 @@ def main():
                    undecided, time.time() - t_start, kani_wall)
     n_dis = sum(1 for o in obligations if o['verdict'] == 'discharged')
     log('property %s: %d obligation(s), %d discharged, %d refuted (%d known), %d undecided, %.1fs' % (
-        prop, len([o for o in obligations if o['kind'] != 'mustfail']), n_dis, len(violations), len(known_hits),
+        prop, len([o for o in obligations if o['kind'] not in ('mustfail', 'skipped')]), n_dis, len(violations), len(known_hits),
         len(undecided), time.time() - t_start))
     if exit_code == 2:
         log('TOOLING property=%s undecided obligations (not a violation)' % prop)
@@ -567,7 +575,7 @@ LEVELS = {}
 
 def write_evidence(prop, tier, seed, obligations, hs, verus_results, units, new_violations, known_hits, undecided,
                    wall, kani_wall):
-    real = [o for o in obligations if o['kind'] != 'mustfail']
+    real = [o for o in obligations if o['kind'] not in ('mustfail', 'skipped')]
     proofs = [o for o in real if o['kind'] == 'proof']
     bounded = [o for o in real if o['kind'] == 'bounded']
     level = 'proof' if proofs else 'other'
@@ -589,6 +597,7 @@ def write_evidence(prop, tier, seed, obligations, hs, verus_results, units, new_
         'bounded_total': len(bounded),
         'bounded_discharged': sum(1 for o in bounded if o['verdict'] == 'discharged'),
         'vacuity_witnesses': [o for o in obligations if o['kind'] == 'mustfail'],
+        'verus_obligations_not_needed_this_run': [o for o in obligations if o['kind'] == 'skipped'],
         'undecided': [{'obligation': (h['obligation']['obligation'] if isinstance(h, dict) else h.name), 'why': why} for h, why in undecided],
         'known_findings_hit': known_hits,
         'solver_time_s': round(sum(o.get('solver_s', 0) for o in obligations), 2),
